@@ -3,12 +3,12 @@ package main
 import "regexp"
 
 func init() {
-	registerProp(&PropSpec{ID: "C02", Title: "Waiting on an event returns after its whole cascade, with exactly its errors", MinObls: 60,
+	registerProp(&PropSpec{ID: "C02", Title: "Waiting on an event returns after its whole cascade, with exactly its errors", MinObls: 60, Extra: func(c *Checker) { condExtra(c, "pool") },
 		Classes:     regexp.MustCompile(`^(lock|cond|assert|pre|post|frame|inv|own)`),
-		TrustedBase: []string{"native model of sync.Mutex (ghost lock set)", "ghost call counters ncalls() per activation", "atlock(k, e): state right after the k-th lock acquisition"},
+		TrustedBase: []string{"native model of sync.Mutex (ghost lock set)", "structural wait/signal discipline of the pool (gvc/cond.go, shared with C09)", "ghost call counters ncalls() per activation", "atlock(k, e): state right after the k-th lock acquisition"},
 		Assumptions: []string{"soundness of lock-invariant reasoning: the counter arithmetic is proved for one critical section at a time (value at unlock vs. value right after the lock was taken)",
 			"sync.WaitGroup.Wait returns only after Done", "monitor/event hand-over through the task queue is an ownership transfer: the unlocked fields of a monitor (finished, activated, Err, event) are only accessed by the task that owns it"},
-		NotDecided: []string{"liveness: that the call does return whenever the actions terminate and a worker is available (the wake-up part is C09)",
+		NotDecided: []string{"liveness: that the call does return whenever the actions terminate and a worker is available: the pool's no-lost-wake-up obligations (every queued task is signalled under the condition's lock, every wait re-tests the queue) are part of this check, convergence under a fair scheduler is not mechanised",
 			"the global counting argument unfinished == |Created minus Finished| (each step is proved: +1 per created child before it is handed out, -1 per finish, finish reported once per monitor; the induction over the history is not mechanised)"}})
 	registerProp(&PropSpec{ID: "C10", Title: "Priorities order execution; the first failing rule ends a trigger sequence", MinObls: 30,
 		Classes:     regexp.MustCompile(`^(lock|cond|assert|pre|post|frame|inv|own)`),
